@@ -463,6 +463,7 @@ pub fn gen_specs() -> Vec<String> {
         v.push(format!("spec(forward): forall X ({b}). spec(backward): forall X (out(X) <-> in(X))."));
         v.push(format!("assumption: forall X (in(X) -> X > 0). spec: forall X ({b})."));
         v.push(format!("assumption(forward): exists X (in(X) and X > 0). spec: forall X ({b})."));
+        v.push(format!("assumption(backward): forall X (in(X) -> X > 0). spec: forall X ({b})."));
     }
     v
 }
